@@ -65,7 +65,29 @@ Definition gout_ok (want : option res) (g : gout) : bool :=
   end.
 
 Definition block_spec_ok (b : lblock) : bool :=
-  forallb2 (fun c g => gout_ok (demanded (l_plat b) (l_meth b) (l_site b) c) g) (conds (l_plat b)) (l_outs b).
+  forallb2 (fun c g => known_pid0_unlisted (l_plat b) (l_meth b) (l_site b) c
+                       || gout_ok (demanded (l_plat b) (l_meth b) (l_site b) c) g) (conds (l_plat b)) (l_outs b).
+
+(* --- every native status code: ZombieProcess iff the code means zombie *)
+Definition scond (p : plat) (code : string) (pid0 : bool) : cond := Build_cond ESRCH (state_of_code p code) pid0.
+Definition sblock_spec_ok (b : sblock) : bool :=
+  forallb2 (fun z g => gout_ok (demanded (sb_plat b) (sb_meth b) (sb_site b) (scond (sb_plat b) (sb_code b) z)) g)
+           [false; true] (sb_outs b).
+Definition sblock_model_ok (b : sblock) : bool :=
+  forallb2 (fun z g => gout_ok (Some (method_outcome (sb_plat b) (sb_meth b) (sb_site b) (scond (sb_plat b) (sb_code b) z))) g)
+           [false; true] (sb_outs b).
+(* PROC_STATUSES maps a code to "zombie" exactly when the system's headers say so, and has every such code *)
+Definition srow_ok (r : srow) : bool :=
+  forallb (fun ct => Bool.eqb (String.eqb (snd ct) "zombie") (mem (fst ct) (doc_zombie_codes (s_plat r)))) (s_codes r)
+  && forallb (fun z => existsb (fun ct => String.eqb (fst ct) z) (s_codes r)) (doc_zombie_codes (s_plat r)).
+(* the status sweep covers every code of every ladder block *)
+Definition sblocks_complete (rows : list srow) (bs : list lblock) (sbs : list sblock) : bool :=
+  forallb (fun b => match find (fun r => plat_eqb (s_plat r) (l_plat b)) rows with
+                    | None => match l_plat b with Windows => true | _ => false end
+                    | Some r => forallb (fun ct => existsb (fun sb => plat_eqb (sb_plat sb) (l_plat b) && String.eqb (sb_meth sb) (l_meth b)
+                                                                   && String.eqb (sb_site sb) (l_site b) && String.eqb (sb_code sb) (fst ct)) sbs)
+                                        (s_codes r)
+                    end) bs.
 
 Definition block_model_ok (b : lblock) : bool :=
   forallb2 (fun c g => gout_ok (Some (method_outcome (l_plat b) (l_meth b) (l_site b) c)) g) (conds (l_plat b)) (l_outs b).
